@@ -86,7 +86,32 @@ def cli_case(ctx, rng, sc):
     d = sc.path / f"cli{rng.randint(0, 10**9)}"
     d.mkdir()
     fa = d / "in.fa"
+    history = None
+    if rng.random() < 0.45:
+        # the input FASTA REPLACED an earlier file of the same name that had been indexed (cache files beside it): same record names,
+        # other residues / line width.  Time stamps (set explicitly): cache older than the new FASTA, EQUAL to it (whole-second file
+        # systems, tar/rsync -t), or only one of the two cache files "fresh" (samtools faidx rewrote the .fai).  The run must describe
+        # the file as it is now.
+        import os
+        from tola.fasta.index import FastaIndex
+        old_recs = [{"name": r["name"], "desc": r.get("desc"), "seq": bytes(rng.choice(b"ACGTN") for _ in range(max(1, len(r["seq"]) + rng.randint(-3, 9))))} for r in recs]
+        fa.write_bytes(F.render(old_recs, rng.choice([5, 50, 60]), b"\n", True))
+        os.utime(fa, (1000, 1000))
+        try:
+            f0 = FastaIndex(fa); f0.auto_load(); f0.fasta_fileandle.close()
+            history = rng.choice(["cache-older", "cache-equal", "fai-fresh-only", "agp-fresh-only"])
+            t_cache = {"cache-older": 1500, "cache-equal": 2000}.get(history, 1500)
+            os.utime(f0.fai_file, (t_cache, t_cache)); os.utime(f0.agp_file, (t_cache, t_cache))
+            if history == "fai-fresh-only":
+                os.utime(f0.fai_file, (2500, 2500))
+            if history == "agp-fresh-only":
+                os.utime(f0.agp_file, (2500, 2500))
+        except Exception:
+            history = None
     fa.write_bytes(data)
+    if history:
+        import os
+        os.utime(fa, (2000, 2000))
     _, inp = F.expected_index(recs, wi)
     inp = [s for s in inp if any(r["t"] == "F" for r in s["rows"])]
     if not inp:
@@ -108,8 +133,8 @@ def cli_case(ctx, rng, sc):
             p += ln
     (d / "ptx.agp").write_text("\n".join(lines) + "\n")
     res = CliRunner().invoke(cli, ["-a", str(fa), "-p", str(d / "ptx.agp"), "-o", str(d / "out.fa")])
-    inp_desc = {"fasta": data.decode("latin-1"), "pretext_agp": "\n".join(lines), "bpt": bpt}
-    ctx.out.case("cli-end-to-end", inp_desc, ("cli", len(recs), res.exit_code))
+    inp_desc = {"fasta": data.decode("latin-1"), "pretext_agp": "\n".join(lines), "bpt": bpt, "cache_history": history}
+    ctx.out.case("cli-end-to-end", inp_desc, ("cli", len(recs), res.exit_code, history))
     if res.exit_code != 0:
         ctx.out.count("cli-nonzero-exit")
         return
